@@ -80,11 +80,11 @@ def run(ctx):
     res = [t for _, t in docs.rule_resources()]
     srcs = docs.repo_sources()
     if ctx.quick():
-        pool = docs.sample(ctx.rng, res, 100) + docs.sample(ctx.rng, srcs, 150)
+        pool = docs.sample(ctx.rng, res, 100) + docs.sample(ctx.rng, srcs, 150) + docs.sample(ctx.rng, docs.families(), 200)
         singles = docs.sample(ctx.rng, fixable, 3)
         pairs = []
     else:
-        pool = res + srcs
+        pool = res + srcs + docs.families()
         singles = fixable
         pairs = [tuple(ctx.rng.sample(fixable, 2)) for _ in range(0)]
     pool = list(dict.fromkeys(pool))
